@@ -419,10 +419,20 @@ def run_case(c):
     out["order_effect"] = float(np.abs(g_ref - g_bug).max() / scale) if len(envs) > 1 else None
 
     # ---- the library
+    # The observed call is the *second* one on the same system object and the same parameter array: the first call sees other
+    # control values, which the caller then overwrites in place (the loop of an optimiser updating its array).
     try:
-        res = oq.state_gradient(system=model.oqupy_system(c["deriv"]), initial_state=rho0.copy(),
+        sysobj = model.oqupy_system(c["deriv"])
+        p_lib = par + 0.11 * np.cos(1.0 + np.arange(par.size)).reshape(par.shape)
+        oq.state_gradient(system=sysobj, initial_state=rho0.copy(), target_derivative=tgt,
+                          process_tensors=[x["pt"] for x in envs], parameters=p_lib, start_time=start,
+                          progress_type="silent")
+        p_lib[...] = par
+        res = oq.state_gradient(system=sysobj, initial_state=rho0.copy(),
                                 target_derivative=tgt, process_tensors=[x["pt"] for x in envs],
-                                parameters=par.copy(), start_time=start, progress_type="silent")
+                                parameters=p_lib, start_time=start, progress_type="silent")
+        if not np.array_equal(p_lib, par):
+            out["sigs"].append(("parameter-array-modified", f"{case_desc(c)}: state_gradient changed the caller's parameters"))
     except Exception as ex:  # noqa
         out["sigs"].append((f"exception:{type(ex).__name__}", f"{case_desc(c)}: {type(ex).__name__}: {ex}"[:260]))
         return out
